@@ -144,4 +144,46 @@ theorem sys_run (caps : Caps) (aw : Nat) (haw : 12 ≤ aw) :
       rw [← List.append_assoc, a3, List.append_assoc, b3]
       simp [sysConsumed, Machine.runFrom, sys]
 
+theorem sysOffered_snoc (caps : Caps) (aw : Nat) (i : SysIn) : ∀ (l : List SysIn) (s0 : SysState),
+    sysOffered caps aw s0 (l ++ [i]) = sysOffered caps aw s0 l ++ sysOfferNow ((sys caps aw).runFrom s0 l) i := by
+  intro l
+  induction l with
+  | nil => intro s0; simp [sysOffered, Machine.runFrom]
+  | cons x xs ih => intro s0; simp [sysOffered, Machine.runFrom, ih, sys]
+
+/-- In a state satisfying the invariant, whenever the master drives `valid` the request on the lines is legal and
+    the registers are in the closed form for `beat_count` beats of it. -/
+theorem drive_inv (caps : Caps) (aw : Nat) (s : SysState) (i : SysIn) (hinv : SysInv caps aw s)
+    (hoff : ∀ r ∈ sysOfferNow s i, Legal aw r (effBurst caps r.burst)) (hv : (s.drive i).valid = true) :
+    Legal aw (s.drive i).req (effBurst caps (s.drive i).req.burst) ∧ s.b.count ≤ (s.drive i).req.len ∧
+    s.b = expState (effBurst caps (s.drive i).req.burst) (s.drive i).req s.b.count ∧
+    s.drive i = ⟨true, (s.drive i).req, i.ready⟩ := by
+  obtain ⟨b, held⟩ := s
+  obtain ⟨go, req, ready⟩ := i
+  cases held with
+  | some r =>
+    obtain ⟨hleg, hk, hb⟩ := hinv
+    exact ⟨hleg, hk, hb, rfl⟩
+  | none =>
+    have hb : b = b2bInit := hinv
+    have hgo : go = true := hv
+    subst hgo
+    have hleg : Legal aw req (effBurst caps req.burst) := hoff req (by simp [sysOfferNow])
+    subst hb
+    refine ⟨hleg, Nat.zero_le _, ?_, rfl⟩
+    show b2bInit = expState _ req 0
+    rw [expState_zero]
+
+/-- In a state satisfying the invariant a beat is offered exactly when the master drives a request. -/
+theorem beatValid_eq_valid (caps : Caps) (aw : Nat) (s : SysState) (i : SysIn) (hinv : SysInv caps aw s) :
+    (sysOut aw s i).beatValid = (s.drive i).valid := by
+  obtain ⟨b, held⟩ := s
+  obtain ⟨go, req, ready⟩ := i
+  cases held with
+  | some r => simp [sysOut, b2bOut, SysState.drive]
+  | none =>
+    have hb : b = b2bInit := hinv
+    subst hb
+    simp [sysOut, b2bOut, SysState.drive, b2bFirst, b2bInit]
+
 end Litex.Axi
